@@ -225,7 +225,11 @@ def compare_var(p1: Place, p2: Place) -> int:
     We need to output linear variables at the end, so we do a lexicographic ordering of
     linearity and name.
     """
-    return -1 if (p1.ty.linear, _name_key(p1)) < (p2.ty.linear, _name_key(p2)) else 1
+    # The name itself breaks ties between names that only differ in leading zeros of a
+    # number part (`x1` and `x01`)
+    key1 = (p1.ty.linear, _name_key(p1), str(p1))
+    key2 = (p2.ty.linear, _name_key(p2), str(p2))
+    return -1 if key1 < key2 else 1
 
 
 def _name_key(place: Place) -> list[str | int]:
